@@ -229,7 +229,9 @@ def mutate(rng, cfg, uses, kind):
         if kind == "one_of-none":
             return [u for u in m if u.arg not in mem], None
         if kind == "differ":
-            a, b = mem
+            # two members get the same value; with 3+ members the others may be used or not (a member listed
+            # between the two may stay unused)
+            a, b = rng.sample(mem, 2)
             ua = [u for u in m if u.arg is a and u.elems]
             if not ua:
                 ua = [gen.gen_use(rng, a)]
@@ -238,6 +240,9 @@ def mutate(rng, cfg, uses, kind):
                 m.append(ua[0])
             m2 = [u for u in m if u.arg is not b]
             m2.append(Use(b, [ua[-1].elems[0]]))
+            for x in mem:
+                if x is not a and x is not b and not x.mandatory and rng.random() < 0.6:
+                    m2 = [u for u in m2 if u.arg is not x]
             return m2, None
         if kind == "disjoint":
             a, b = mem
